@@ -31,6 +31,8 @@ pub enum SEv {
     ConnectSilent,
     Shutdown,
     DropHandle,
+    /// the stalled peer reads again until nothing more arrives: its session must still be there
+    Drain(usize),
     /// a peer the address filter refuses (the server then runs with the filter Exact(127.0.0.1)
     /// instead of Any; this peer comes from 127.0.0.2): no session, nobody evicted
     ConnectFiltered,
@@ -48,6 +50,10 @@ struct Conn {
     /// remainder of a half-sent request frame and its transaction id
     half: Option<(Vec<u8>, u16)>,
     eof_seen: bool,
+    /// what is missing of the request frame the stall was cut in
+    stall_rest: Vec<u8>,
+    /// request bytes written during the stall
+    stall_bytes: usize,
 }
 
 struct Model {
@@ -144,7 +150,18 @@ pub async fn run_history(h: &History) -> Vec<(String, String)> {
         }
     } else {
         let app = net_app(&[1]);
-        let (listener, addr) = listen("127.0.0.1").await;
+        let (listener, addr) = if h.events.iter().any(|e| matches!(e, SEv::Drain(_))) {
+            // small receive buffers for the sessions (inherited from the listener): the stalled peer
+            // gets fewer requests in before the server stops reading, and has less to drain
+            let sock = tokio::net::TcpSocket::new_v4().expect("socket");
+            let _ = sock.set_recv_buffer_size(16 * 1024);
+            sock.bind("127.0.0.1:0".parse().unwrap()).expect("bind");
+            let l = sock.listen(16).expect("listen");
+            let a = l.local_addr().unwrap();
+            (l, a)
+        } else {
+            listen("127.0.0.1").await
+        };
         let (handle, task) = create_tcp_server_task(h.max_sessions, listener, app.map.clone(), filter(), DecodeLevel::nothing());
         tokio::spawn(task.run());
         (Some(handle), addr, app)
@@ -169,7 +186,7 @@ pub async fn run_history(h: &History) -> Vec<(String, String)> {
                     }
                     Ok(s) => {
                         let idx = conns.len();
-                        conns.push(Conn { stream: Some(s), live: true, stalled: false, silent, half: None, eof_seen: false });
+                        conns.push(Conn { stream: Some(s), live: true, stalled: false, silent, half: None, eof_seen: false, stall_rest: vec![], stall_bytes: 0 });
                         if model.order.len() >= model.cap {
                             if let Some(old) = model.order.pop_front() {
                                 conns[old].live = false;
@@ -259,12 +276,19 @@ pub async fn run_history(h: &History) -> Vec<(String, String)> {
                 // pipeline large reads without reading the replies until our own writes stop making progress
                 let big = mbap_frame(0x7777, 1, &[3, 0, 0, 0, 125]);
                 let batch: Vec<u8> = big.iter().cycle().take(big.len() * 64).copied().collect();
+                // the stream stays a sequence of whole request frames: single `write` calls (a call
+                // that is given up has written nothing), the position inside the batch is kept
+                let mut off = 0usize;
+                let mut written = 0usize;
                 if let Some(s) = conns[*i].stream.as_mut() {
                     let mut blocked = false;
                     let started = std::time::Instant::now();
                     while started.elapsed() < Duration::from_secs(30) {
-                        match tokio::time::timeout(Duration::from_millis(250), s.write_all(&batch)).await {
-                            Ok(Ok(())) => {}
+                        match tokio::time::timeout(Duration::from_millis(250), s.write(&batch[off..])).await {
+                            Ok(Ok(n)) => {
+                                off = (off + n) % batch.len();
+                                written += n;
+                            }
                             Ok(Err(_)) => break,
                             Err(_) => {
                                 // our write made no progress. That alone also happens when the server is
@@ -290,6 +314,11 @@ pub async fn run_history(h: &History) -> Vec<(String, String)> {
                     }
                 }
                 conns[*i].stalled = true;
+                conns[*i].stall_bytes = written;
+                conns[*i].stall_rest = big[off % big.len()..].to_vec();
+                if off % big.len() == 0 {
+                    conns[*i].stall_rest.clear();
+                }
             }
             SEv::Shutdown => {
                 if let Some(hd) = handle.as_ref() {
@@ -305,6 +334,33 @@ pub async fn run_history(h: &History) -> Vec<(String, String)> {
                 for i in model.order.drain(..) {
                     conns[i].live = false;
                 }
+            }
+            SEv::Drain(i) => {
+                use tokio::io::AsyncReadExt;
+                let rest = std::mem::take(&mut conns[*i].stall_rest);
+                // one 259-byte reply per whole request frame written (the cut frame is completed first)
+                let frames = (conns[*i].stall_bytes + rest.len()) / 12;
+                let mut left = frames * 259;
+                if let Some(s) = conns[*i].stream.as_mut() {
+                    let mut buf = vec![0u8; 1 << 16];
+                    let mut rest = &rest[..];
+                    let started = std::time::Instant::now();
+                    while left > 0 && started.elapsed() < Duration::from_secs(120) {
+                        if !rest.is_empty() {
+                            if let Ok(Ok(n)) = tokio::time::timeout(Duration::from_millis(20), s.write(rest)).await {
+                                rest = &rest[n..];
+                            }
+                        }
+                        let want = left.min(buf.len());
+                        match tokio::time::timeout(STEP_TIMEOUT, s.read(&mut buf[..want])).await {
+                            Ok(Ok(n)) if n > 0 => left -= n,
+                            // the line ended or went quiet: the probe below reports it
+                            _ => break,
+                        }
+                    }
+                }
+                conns[*i].stalled = false;
+                conns[*i].half = None;
             }
             SEv::ConnectFiltered => {
                 if !model.up {
@@ -415,7 +471,7 @@ pub async fn run_burst_case(tls: bool, n: usize) -> Vec<(String, String)> {
     let result: Result<(), (String, String)> = async {
         for i in 0..n {
             let s = peer_connect(addr, tls, false).await.map_err(|e| ("connect-refused".to_string(), format!("connection {i}: {e}")))?;
-            conns.push(Conn { stream: Some(s), live: true, stalled: false, silent: false, half: None, eof_seen: false });
+            conns.push(Conn { stream: Some(s), live: true, stalled: false, silent: false, half: None, eof_seen: false, stall_rest: vec![], stall_bytes: 0 });
             tx = tx.wrapping_add(1);
             sentinel(&mut conns[i], tx).await.map_err(|e| ("request-not-served".to_string(), format!("connection {i} of {n}: {e}")))?;
         }
@@ -429,7 +485,7 @@ pub async fn run_burst_case(tls: bool, n: usize) -> Vec<(String, String)> {
         // n - 1 new sessions fit next to the old one
         for i in 1..n {
             let s = peer_connect(addr, tls, false).await.map_err(|e| ("connect-refused".to_string(), format!("new connection {i}: {e}")))?;
-            conns.push(Conn { stream: Some(s), live: true, stalled: false, silent: false, half: None, eof_seen: false });
+            conns.push(Conn { stream: Some(s), live: true, stalled: false, silent: false, half: None, eof_seen: false, stall_rest: vec![], stall_bytes: 0 });
             tx = tx.wrapping_add(1);
             sentinel(&mut conns[i], tx).await.map_err(|e| ("request-not-served".to_string(), format!("new connection {i} of {}: {e}", n - 1)))?;
         }
@@ -439,7 +495,7 @@ pub async fn run_burst_case(tls: bool, n: usize) -> Vec<(String, String)> {
         }
         // one more: exactly the oldest goes
         let s = peer_connect(addr, tls, false).await.map_err(|e| ("connect-refused".to_string(), format!("connection over the limit: {e}")))?;
-        conns.push(Conn { stream: Some(s), live: true, stalled: false, silent: false, half: None, eof_seen: false });
+        conns.push(Conn { stream: Some(s), live: true, stalled: false, silent: false, half: None, eof_seen: false, stall_rest: vec![], stall_bytes: 0 });
         tx = tx.wrapping_add(1);
         sentinel(&mut conns[n], tx).await.map_err(|e| ("request-not-served".to_string(), format!("connection over the limit: {e}")))?;
         expect_eof(&mut conns[0]).await.map_err(|e| ("session-not-closed".to_string(), format!("the oldest session should have been evicted: {e}")))?;
@@ -535,6 +591,7 @@ fn enabled(h: &[SEv], tls: bool, max_conn: usize) -> Vec<SEv> {
             }
             SEv::Close(i) | SEv::Garbage(i) => live[*i] = false,
             SEv::Stall(i) => stalled[*i] = true,
+            SEv::Drain(i) => stalled[*i] = false,
             SEv::Shutdown | SEv::DropHandle => up = false,
             SEv::SetDecode9 => nine = true,
             _ => {}
@@ -559,6 +616,7 @@ fn enabled(h: &[SEv], tls: bool, max_conn: usize) -> Vec<SEv> {
     if !nine {
         v.push(SEv::SetDecode9);
     }
+
     if !stalled.iter().any(|x| *x) {
         for i in 0..live.len() {
             if live[i] {
@@ -598,7 +656,7 @@ fn eviction_aware_filter(h: &[SEv], cap: usize) -> bool {
                 }
                 order.retain(|x| x != i);
             }
-            SEv::Request(i) | SEv::HalfFrame(i) | SEv::Stall(i) => {
+            SEv::Request(i) | SEv::HalfFrame(i) | SEv::Stall(i) | SEv::Drain(i) => {
                 if !order.contains(i) {
                     return false;
                 }
@@ -621,7 +679,7 @@ pub fn check_c15(tier: &str) -> i32 {
         "C15",
         tier,
         "model_checking",
-        "all histories up to depth D over {connect, peer closes i, request on i, garbage on i, half frame on i, set decode level, set decode level x9, stall i (peer stops reading until the server's write blocks), silent TLS peer, a peer refused by the address filter, shutdown, drop handle} with max_sessions in {0,1,2,3} against the unmodified create_tcp_server_task / create_tls_server_task on 127.0.0.1, peers are raw sockets / independent rustls clients; events are applied in lock-step and after every event every connection is probed: connections the reference tracker (capacity max(1,n), evict oldest) considers live must answer a sentinel read, closed ones must deliver EOF, after shutdown / handle drop new connections must be refused. states = distinct reference-tracker states",
+        "all histories up to depth D over {connect, peer closes i, request on i, garbage on i, half frame on i, set decode level, set decode level x9, stall i (peer stops reading until the server's write blocks), drain i (the stalled peer reads again), silent TLS peer, a peer refused by the address filter, shutdown, drop handle} with max_sessions in {0,1,2,3} against the unmodified create_tcp_server_task / create_tls_server_task on 127.0.0.1, peers are raw sockets / independent rustls clients; events are applied in lock-step and after every event every connection is probed: connections the reference tracker (capacity max(1,n), evict oldest) considers live must answer a sentinel read, closed ones must deliver EOF, after shutdown / handle drop new connections must be refused. states = distinct reference-tracker states",
     );
     let thorough = rep.thorough();
     let depth = if thorough { 5 } else { 4 };
@@ -733,6 +791,16 @@ pub fn check_c15(tier: &str) -> i32 {
             }
         }
     }
+    // a session that was busy (blocked in its write) while more decode-level changes arrived than
+    // its command queue holds is still there once the peer reads again
+    // (plain TCP only: an independent TLS peer keeps part of what it "wrote" in its own TLS buffer,
+    // so the number of replies to wait for is not known exactly)
+    for tls in [false] {
+        use SEv::*;
+        for events in [vec![Connect, Stall(0), SetDecode9, Drain(0)], vec![Connect, Connect, Stall(0), SetDecode9, Drain(0), Request(1)], vec![Connect, Stall(0), SetDecode, Drain(0), SetDecode9]] {
+            histories.push(History { max_sessions: 2, tls, events });
+        }
+    }
     let results: Arc<std::sync::Mutex<Vec<(usize, Vec<(String, String)>)>>> = Arc::new(std::sync::Mutex::new(vec![]));
     let hist = Arc::new(histories);
     rt().block_on(async {
@@ -790,6 +858,7 @@ pub fn check_c15(tier: &str) -> i32 {
                 SEv::Shutdown => "ev:shutdown",
                 SEv::DropHandle => "ev:drop-handle",
                 SEv::ConnectFiltered => "ev:filtered-peer",
+                SEv::Drain(_) => "ev:drain-stalled",
             });
         }
         st.observe(&(h.max_sessions, h.tls, format!("{:?}", h.events), problems.len()));
@@ -809,7 +878,7 @@ pub fn check_c15(tier: &str) -> i32 {
     let st = burst_close_phase(thorough);
     rep.phase("bursts: up to 39 sessions ending at the same instant, then as many new ones", st, json!({"max_sessions": if thorough { "9..40" } else { "9..17" }}));
     rep.require_class("burst-of-session-ends");
-    for c in ["ev:connect", "ev:close", "ev:request", "ev:garbage", "ev:half-frame", "ev:set-decode", "ev:set-decode-x9", "ev:stall", "ev:shutdown", "ev:drop-handle", "ev:silent-tls-peer", "ev:filtered-peer"] {
+    for c in ["ev:connect", "ev:close", "ev:request", "ev:garbage", "ev:half-frame", "ev:set-decode", "ev:set-decode-x9", "ev:stall", "ev:shutdown", "ev:drop-handle", "ev:silent-tls-peer", "ev:filtered-peer", "ev:drain-stalled"] {
         rep.require_class(c);
     }
     rep.assumptions.push("the kernel scheduler is real: histories are lock-step (each event is followed by a probe of every connection), a failing history must fail three times in a row to be reported".into());
